@@ -33,4 +33,7 @@ def run(ctx):
     obs += cp.at_prelude_terminators_rule(ctx, 'C08')
     # an rpx length stays a dimension: the conversion builds its token only under the unit test, nothing else (shared with C10)
     obs += [o for o in cp.rpx_rules(ctx, 'C08') if '.expr/unit-test' in o['key']]
+    # every rewrite works on tokens: no source text is copied into the output (wave 10; shared by the stylesheet packs)
+    obs += cp.tokens_only_rule(ctx, 'C08')
+    obs += cp.state_counters_rule(ctx, 'C08')
     return obs
